@@ -84,6 +84,7 @@ BOUNDS = {
         "cached": "6 cached sections x 4 key forms x 4 render sequences x strict on/off",
         "rebind": "9 value sequences of 4 steps (equal objects of different type, equal containers, controls) x first binding {<% %>, page argument, render argument} x call form {${f()}, capture(f), <%call>, inside % for} x strict on/off; + in-place mutation, augmented assignment and other-name sequences; each Template rendered twice",
         "nsdef": "reads in a def written inside <%namespace name=>: 2 names (plain, builtin) x 10 subsets of {module block, imports=, render argument, body assignment} x 5 shapes x strict on/off; UNDEFINED / STOP_RENDERING probes x 5 shapes x strict on/off",
+        "shadowdef": "a def nested in a def named like a top-level def / context variable / builtin / module-level name: 5 x depth 1-2 x 4 call forms x strict on/off",
         "imports": "one sequence per run: 28 reader operations, 20 binder operations, the readers again, the binders again (96 operations in one process)",
         "flagname": "24 read sites x 10 spellings (9 escape-flag names + control) x {present, absent} x strict on/off, minus str-present",
     },
@@ -99,6 +100,7 @@ BOUNDS = {
         "cached": "6 cached sections x 4 key forms x 4 render sequences x strict on/off",
         "rebind": "9 value sequences of 4 steps (equal objects of different type, equal containers, controls) x first binding {<% %>, page argument, render argument} x call form {${f()}, capture(f), <%call>, inside % for} x strict on/off; + in-place mutation, augmented assignment and other-name sequences; each Template rendered twice",
         "nsdef": "reads in a def written inside <%namespace name=>: 2 names (plain, builtin) x 10 subsets of {module block, imports=, render argument, body assignment} x 5 shapes x strict on/off; UNDEFINED / STOP_RENDERING probes x 5 shapes x strict on/off",
+        "shadowdef": "a def nested in a def named like a top-level def / context variable / builtin / module-level name: 5 x depth 1-2 x 4 call forms x strict on/off",
         "imports": "one sequence per run: 28 reader operations, 20 binder operations, the readers again, the binders again (96 operations in one process)",
         "flagname": "24 read sites x 10 spellings (9 escape-flag names + control) x {present, absent} x strict on/off, minus str-present",
     },
@@ -1837,6 +1839,73 @@ def check_nsdef(al, c, st):
 
 
 # --------------------------------------------------------------------------
+# family shadowdef: a def nested in a def is a binding of the enclosing scope (Python's closure rules): inside the enclosing
+# def its name means the nested def, whatever else is called so (a top-level def of the template, a context variable, a
+# builtin, an imported def); outside, the other meaning is untouched.  Closed form.
+
+SHADOW_OTHERS = ["topdef", "ctx", "builtin", "module", "topdef+ctx"]
+SHADOW_DEPTHS = [1, 2]
+SHADOW_CALLS = ["expr", "capture", "calltag", "in-control-line"]
+
+
+def shadowdef_cases(al):
+    for other in SHADOW_OTHERS:
+        for depth in SHADOW_DEPTHS:
+            for call in SHADOW_CALLS:
+                for strict in (False, True):
+                    yield {"other": other, "depth": depth, "call": call, "strict": strict}
+
+
+def check_shadowdef(al, c, st):
+    from mako.template import Template
+
+    name = "len" if c["other"] == "builtin" else al.name
+    other, depth = c["other"], c["depth"]
+    callsrc = {"expr": "${%s()}" % name, "capture": "${capture(%s)}" % name, "calltag": '<%%call expr="%s()"></%%call>' % name,
+               "in-control-line": "\\\n%% if %s() == '':\nseen\\\n%% endif\n" % name}[c["call"]]
+    nested = '<%%def name="%s()">NESTED</%%def>' % name
+    if depth == 1:
+        outer = '<%def name="outer()">' + nested + "[" + callsrc + "]</%def>"
+    else:
+        outer = '<%def name="outer()"><%def name="mid()">' + nested + "[" + callsrc + "]</%def>(${mid()})</%def>"
+    head, ctx = "", {}
+    outside = "U"
+    if "topdef" in other:
+        head += '<%%def name="%s()">TOP</%%def>' % name
+        outside = "TOP"
+    if other == "module":
+        head += "<%%! %s = lambda: 'MOD' %%>" % name
+        outside = "MOD"
+    if "ctx" in other:
+        ctx[name] = lambda: "CTX"
+        if "topdef" not in other:
+            outside = "CTX"
+    if other == "builtin":
+        tail = "|${%s('ab')}" % name
+        exp_tail = "|2"
+    elif other == "ctx" or "topdef" in other or other == "module":
+        tail = "|${%s()}" % name
+        exp_tail = "|" + outside
+    inner = "NESTED" if c["call"] != "in-control-line" else "NESTEDseen"
+    exp = ("[%s]" % inner if depth == 1 else "([%s])" % inner) + exp_tail
+    src = head + outer + "${outer()}" + tail
+    st.evaluations += 1
+    st.transitions += 1
+    st.traces += 1
+    st.oracles["shadowdef"] += 1
+    try:
+        obs = "".join(Template(src, strict_undefined=c["strict"]).render_unicode(**ctx).split("\n"))
+    except Exception as e:  # noqa
+        obs = "%s: %s" % (type(e).__name__, str(e)[:120])
+    ok = obs == exp
+    st.outcomes[("shadowdef", other, "ok" if ok else "differs")] += 1
+    if not ok:
+        st.violation("shadowdef:nested def named like a %s" % other, {"fam": "shadowdef", "c": c, "seed": al.seed, "template": src}, "a def nested in a def binds its name in the enclosing def (formula)", expected=exp, observed=obs)
+    if st.traces % 41 == 1:
+        st.sample({"fam": "shadowdef", "c": c, "template": src, "expected": exp})
+
+
+# --------------------------------------------------------------------------
 # jobs
 
 
@@ -1854,6 +1923,7 @@ def plan(tier, seed):
     jobs.append({"kind": "cached", "tier": tier, "seed": seed})
     jobs.append({"kind": "rebind", "tier": tier, "seed": seed})
     jobs.append({"kind": "nsdef", "tier": tier, "seed": seed})
+    jobs.append({"kind": "shadowdef", "tier": tier, "seed": seed})
     return jobs
 
 
@@ -1909,9 +1979,9 @@ def _run_job(job, st):
         st.extra["kwargs_cases"] = st.states
     elif kind == "imports":
         run_imports_family(al, st)
-    elif kind in ("sentinel", "attrs", "cached", "rebind", "nsdef"):
-        gen = {"sentinel": lambda: sentinel_cases(al), "attrs": attrs_cases, "cached": cached_cases, "rebind": rebind_cases, "nsdef": lambda: nsdef_cases(al)}[kind]()
-        fn = {"sentinel": check_sentinel, "attrs": check_attrs, "cached": check_cached, "rebind": check_rebind, "nsdef": check_nsdef}[kind]
+    elif kind in ("sentinel", "attrs", "cached", "rebind", "nsdef", "shadowdef"):
+        gen = {"sentinel": lambda: sentinel_cases(al), "attrs": attrs_cases, "cached": cached_cases, "rebind": rebind_cases, "nsdef": lambda: nsdef_cases(al), "shadowdef": lambda: shadowdef_cases(al)}[kind]()
+        fn = {"sentinel": check_sentinel, "attrs": check_attrs, "cached": check_cached, "rebind": check_rebind, "nsdef": check_nsdef, "shadowdef": check_shadowdef}[kind]
         n = 0
         for i, c in enumerate(gen):
             if i % job.get("nshards", 1) != job.get("shard", 0):
@@ -1933,7 +2003,7 @@ def _run_job(job, st):
 
 def post(tier, seed, st):
     walls = st.extra.pop("job_walls", [])
-    for k in ("res", "stmt", "reread", "reserved", "kwargs", "flagname", "imports", "sentinel", "attrs", "cached", "rebind", "nsdef"):
+    for k in ("res", "stmt", "reread", "reserved", "kwargs", "flagname", "imports", "sentinel", "attrs", "cached", "rebind", "nsdef", "shadowdef"):
         st.extra.pop("job_wall_max_s_" + k, None)
     st.extra["slowest_job_wall_s"] = max([w[2] for w in walls] or [0])
     st.extra["alphabet"] = {k: v for k, v in Alpha(seed).__dict__.items()}
@@ -1953,8 +2023,8 @@ def replay(case):
         check_kwargs(case["c"], st)
     elif fam == "flagname":
         check_flag(Alpha(case["seed"]), case["c"], st)
-    elif fam in ("sentinel", "attrs", "cached", "rebind", "nsdef"):
-        {"sentinel": check_sentinel, "attrs": check_attrs, "cached": check_cached, "rebind": check_rebind, "nsdef": check_nsdef}[fam](Alpha(case["seed"]), case["c"], st)
+    elif fam in ("sentinel", "attrs", "cached", "rebind", "nsdef", "shadowdef"):
+        {"sentinel": check_sentinel, "attrs": check_attrs, "cached": check_cached, "rebind": check_rebind, "nsdef": check_nsdef, "shadowdef": check_shadowdef}[fam](Alpha(case["seed"]), case["c"], st)
     elif fam == "imports":
         r = check_imports_op(Alpha(case["seed"]), case["op"], st)
         if r is not None:
